@@ -13,7 +13,8 @@ def classify(d):
     return d.get("diag")
 
 
-def run_rend_traces(ctx, families, n, shards=8, prefix="rend"):
+def run_rend_traces(ctx, families, n, shards=None, prefix="rend"):
+    shards = shards or (8 if ctx.tier == "quick" else 32)
     p, _ = ctx.run_harness(["drive-rend", "-out", ctx.tmp, "-shards", str(shards), "-n", str(n),
                             "-families", ",".join(families)], timeout=3000)
     summ = deccheck.summary_of(p)
